@@ -189,7 +189,8 @@ and drops it, and nothing is logged.  If the function does not get its own actio
 (a plain value or a future — it is *not* chained, the future is the result) becomes the action's result and an `Exception`
 becomes the action's exception, while `run()` itself returns normally; only a `BaseException` propagates out of `run()`
 (the action stays pending).  If the action is cancelled while its function runs (superseded by another request) it stays
-cancelled, a returned value is dropped and an exception propagates to the caller of `run()` ("no one left to report to"). -/
+cancelled, a returned value is dropped and an `Exception` is logged — there is no one left to report to, and the caller of `run()`
+still has to serve the request that superseded the action (repair e94edb5, finding F28); only a `BaseException` propagates. -/
 theorem C20_action_reports_through_itself (s0 : State) (fn : ActFn) :
     let a := (newAction s0 fn).2
     let r := runAction (newAction s0 fn).1 a
@@ -199,7 +200,8 @@ theorem C20_action_reports_through_itself (s0 : State) (fn : ActFn) :
       | .ret v => r.2 = none ∧ r.1.st a = .result v
       | .raise e => (e.isException = true → r.2 = none ∧ r.1.st a = .exc e) ∧
                     (e.isException = false → r.2 = some e ∧ r.1.st a = .pending)) ∧
-    (fn.cancels = true → r.1.st a = .cancelled ∧ r.2 = match fn.out with | .ret _ => none | .raise e => some e) := by
+    (fn.cancels = true → r.1.st a = .cancelled ∧
+      r.2 = match fn.out with | .ret _ => none | .raise e => if e.isException then none else some e) := by
   intro a r
   have h1 : (newAction s0 fn).1.st a = .pending := by simp [a, newAction, alloc, State.setAct, State.st]
   have h2 : (newAction s0 fn).1.acts a = some { fn := some fn, calls := 0 } := by simp [a, newAction, alloc, State.setAct]
@@ -365,10 +367,10 @@ example :
     let s := actRun a (newAction {} { out := .raise (.user 2) }).1 [.cancel, .run]
     s.st a = .cancelled ∧ (s.acts a).map (·.calls) = some 0 := by decide
 
-/-- an action superseded (cancelled) while its function runs stays cancelled and lets the exception through -/
+/-- an action superseded (cancelled) while its function runs stays cancelled; the exception of its function does not leave `run()` -/
 example :
     let a := (newAction {} { cancels := true, out := .raise (.user 2) }).2
     let r := runAction (newAction {} { cancels := true, out := .raise (.user 2) }).1 a
-    r.1.st a = .cancelled ∧ r.2 = some (.user 2) ∧ (r.1.acts a).map (·.calls) = some 1 := by decide
+    r.1.st a = .cancelled ∧ r.2 = none ∧ (r.1.acts a).map (·.calls) = some 1 := by decide
 
 end Futures
